@@ -280,7 +280,7 @@ class Server(Acceptor):
                               wl=self.wl,
                               tymeout=self.tymeout)
             if ca in self.ixes and self.ixes[ca] is not remoter:
-                self.shutdownIx(ca)
+                self.closeIx(ca)  # shutdown and close replaced connection socket
             self.ixes[ca] = remoter
 
 
@@ -566,6 +566,15 @@ class ServerTls(Server):
                                 )
 
             self.cxes[ca] = remoter
+
+
+    def close(self):
+        """
+        Close all sockets including those of connections still in TLS handshake
+        """
+        super(ServerTls, self).close()
+        for cx in self.cxes.values():  # remoters not yet handshaked
+            cx.close()
 
 
     def serviceCxes(self):
